@@ -1,3 +1,4 @@
+import errno
 import logging
 import os
 import stat
@@ -136,6 +137,18 @@ def _create_files(  # noqa: C901, PLR0912, PLR0913
             links=links,
             on_error=_onerror if onerror is not None else None,
         )
+
+        if isinstance(fs, LocalFileSystem) and links and "symlink" in links:
+            # NOTE: a symlink gets created whether or not its source exists
+            for src_path, dest_path in zip(src_paths, dest_paths):
+                if fs.islink(dest_path) and not os.path.exists(dest_path):
+                    fs.remove(dest_path)
+                    exc = FileNotFoundError(
+                        errno.ENOENT, os.strerror(errno.ENOENT), src_path
+                    )
+                    if onerror is None:
+                        raise exc
+                    _onerror(src_path, dest_path, exc)
 
         _check_versioning(dest_paths, fs)
 
